@@ -262,5 +262,3 @@ theorem Full_idsBounded : Full_idsBounded_statement := by
 
 end LolHtml.Thm.Full
 
-#print axioms LolHtml.Thm.Full.Full_idsBounded
-#print axioms LolHtml.Thm.Full.compile_idsBounded
